@@ -149,7 +149,7 @@ class Known:
             w = e['witness']
             res = k3.run_cases(it, [(w['entry'], w['tokens'], w.get('bits', ''))])
             case, impl, model, cmp_ = res[0]
-            o = oracle(it['pb'], w['tokens'], impl)
+            o = oracle(it, case, impl, model)
             if o is not None:
                 self.still[e['id']] = '%s: grammar %r on input %r: %s' % (e['id'], w['grammar'].replace('\n', ' '), ' '.join(w['tokens']), o)
 
